@@ -200,7 +200,11 @@ theorem newSized_inv {w w' : W} (k : Kind) (m : Nat) (inv : InvW w rest n) (h : 
   | none => simp [hp] at h
   | some r =>
     obtain ⟨y, w1⟩ := r
-    simp only [hp, W.alloc, W.setHeap, W.pushNoRef, W.addRefs, okW, Option.some.injEq, Outcome.ok.injEq] at h
+    simp only [hp] at h
+    by_cases hkm : k = .map
+    · simp [hkm] at h
+    rw [if_neg hkm] at h
+    simp only [W.alloc, W.setHeap, W.pushNoRef, W.addRefs, okW, Option.some.injEq, Outcome.ok.injEq] at h
     obtain ⟨i1, _, _, _⟩ := pop_inv inv hp
     rw [← h]
     -- as if `m` primitives had been pushed (counted) and then packed
@@ -228,6 +232,9 @@ theorem pack_inv {w w' : W} (k : Kind) (m : Nat) (inv : InvW w rest n) (h : exec
   | some r =>
     obtain ⟨y, w1⟩ := r
     simp only [hp] at h
+    by_cases hkm : k = .map
+    · simp [hkm] at h
+    rw [if_neg hkm] at h
     obtain ⟨i1, _, _, _⟩ := pop_inv inv hp
     split at h
     · rename_i hm
